@@ -1,0 +1,17 @@
+//go:build verif
+
+package sweeper
+
+import "context"
+
+// VerifYield, when set, is called between write-lock slices of a sweep.
+var VerifYield func(s *Sweeper, point string)
+
+func verifYield(s *Sweeper, point string) {
+	if VerifYield != nil {
+		VerifYield(s, point)
+	}
+}
+
+// VerifSweepOnce performs a single full database sweep.
+func (s *Sweeper) VerifSweepOnce(ctx context.Context) error { return s.sweep(ctx) }
